@@ -278,6 +278,9 @@ pub const MAX_POS: usize = 6;
 /// A hand-written matcher that accepts exactly {0} and, when it rejects, reports the mismatch
 /// through the reporter it is handed - whether or not diagnostics are being collected.
 pub const MASK_REPORTING_MATCHER: u8 = 253;
+/// A hand-written disjunctive matcher accepting {0, 1}: for 1 it first reports that the
+/// alternative "0" did not fit and then accepts by the alternative "1"; for 2 it reports and rejects.
+pub const MASK_REPORTING_ACCEPTING_MATCHER: u8 = 252;
 pub const MASK_PANICKING_MATCHER: u8 = 254;
 pub const MASK_NO_MATCHER_FN: u8 = 255;
 
@@ -301,6 +304,16 @@ macro_rules! special_or {
             $recv.$entry(&|m| {
                 m.func(|_, _| panic!("{}", USER_PANIC_MATCHER));
             })
+        } else if $mask == MASK_REPORTING_ACCEPTING_MATCHER {
+            $recv.$entry(&|m| {
+                m.func(|x, reporter| {
+                    if *x == 0 {
+                        return true;
+                    }
+                    reporter.pat_fail(0, Some(format!("{x}")), Some("0"));
+                    *x == 1
+                });
+            })
         } else if $mask == MASK_REPORTING_MATCHER {
             $recv.$entry(&|m| {
                 m.func(|x, reporter| {
@@ -319,7 +332,7 @@ macro_rules! special_or {
 }
 
 fn start_some<F: UF>(f: F, pos: usize, mask: u8) -> DefineResponse<'static, F, InAnyOrder> {
-    if mask >= MASK_REPORTING_MATCHER {
+    if mask >= MASK_REPORTING_ACCEPTING_MATCHER {
         return special_or!(f, some_call, mask, unreachable!());
     }
     match pos {
@@ -334,7 +347,7 @@ fn start_some<F: UF>(f: F, pos: usize, mask: u8) -> DefineResponse<'static, F, I
 }
 
 fn start_each<F: UF>(f: F, pos: usize, mask: u8) -> DefineMultipleResponses<'static, F, InAnyOrder> {
-    if mask >= MASK_REPORTING_MATCHER {
+    if mask >= MASK_REPORTING_ACCEPTING_MATCHER {
         return special_or!(f, each_call, mask, unreachable!());
     }
     match pos {
@@ -349,7 +362,7 @@ fn start_each<F: UF>(f: F, pos: usize, mask: u8) -> DefineMultipleResponses<'sta
 }
 
 fn start_next<F: UF>(f: F, pos: usize, mask: u8) -> DefineResponse<'static, F, InOrder> {
-    if mask >= MASK_REPORTING_MATCHER {
+    if mask >= MASK_REPORTING_ACCEPTING_MATCHER {
         return special_or!(f, next_call, mask, unreachable!());
     }
     match pos {
@@ -368,7 +381,7 @@ fn start_stub<'e, F: UF>(
     pos: usize,
     mask: u8,
 ) -> DefineMultipleResponses<'e, F, InAnyOrder> {
-    if mask >= MASK_REPORTING_MATCHER {
+    if mask >= MASK_REPORTING_ACCEPTING_MATCHER {
         return special_or!(each, call, mask, unreachable!());
     }
     match pos {
